@@ -19,6 +19,7 @@ RULE = (
 )
 
 MODES = ["grad", "deriv", "jac", "vjp", "jvp", "egrad", "vag", "hvp_like"]
+PMODES = ["jvp_primal", "vjp_primal", "vag_primal", "gaa_aux"]
 REV = {"grad", "jac", "vjp", "egrad", "vag"}
 
 
@@ -35,6 +36,11 @@ def ops():
         "egrad": lambda f: elementwise_grad(f),
         "vag": lambda f: (lambda x: value_and_grad(f)(x)[1]),
         "hvp_like": lambda f: (lambda x: make_jvp(f)(x)(1.0)[1]),
+        # primal values handed back by the operators (must stay differentiable by enclosing levels)
+        "jvp_primal": lambda f: (lambda x: make_jvp(f)(x)(1.0)[0]),
+        "vjp_primal": lambda f: (lambda x: make_vjp(f)(x)[1]),
+        "vag_primal": lambda f: (lambda x: value_and_grad(f)(x)[0]),
+        "gaa_aux": lambda f: (lambda x: autograd.grad_and_aux(lambda y: (f(y), f(y)))(x)[1]),
     }
 
 
@@ -60,6 +66,8 @@ def gen(c, vars_, depth, counter):
         return ("pow", gen(c, vars_, depth - 1, counter), c.choice([2, 3]))
     counter[0] += 1
     y = "y%d" % counter[0]
+    if k == 12:
+        return ("P", PMODES[c.int(0, len(PMODES) - 1)], y, gen(c, vars_ + [y], depth - 1, counter), gen(c, vars_, depth - 2, counter))
     mode = MODES[c.int(0, len(MODES) - 1)]
     return ("D", mode, y, gen(c, vars_ + [y], depth - 1, counter), gen(c, vars_, depth - 2, counter))
 
@@ -78,7 +86,7 @@ def comp(e, env, OPS, np):
         return comp(e[1], env, OPS, np) / comp(e[2], env, OPS, np)
     if t == "pow":
         return comp(e[1], env, OPS, np) ** e[2]
-    if t == "D":
+    if t in ("D", "P"):
         _, mode, var, body, at = e
         f = lambda y: comp(body, {**env, var: y}, OPS, np)
         return OPS[mode](f)(comp(at, env, OPS, np))
@@ -93,8 +101,10 @@ def closure_patterns(e, bound=()):
         return out
     if t == "pow":
         return closure_patterns(e[1], bound)
-    if t == "D":
+    if t in ("D", "P"):
         _, mode, var, body, at = e
+        if t == "P":
+            out.add("primal_through_operator")
         used = [b for b in bound if S.mentions(body, b)]
         if not bound:
             pass
@@ -123,8 +133,8 @@ def modeseq(e, acc=None):
         return acc
     if t == "pow":
         return modeseq(e[1], acc)
-    if t == "D":
-        acc.append("r" if e[1] in REV else "f")
+    if t in ("D", "P"):
+        acc.append("r" if (e[1] in REV or e[1] in ("vjp_primal", "vag_primal", "gaa_aux")) else "f")
         modeseq(e[3], acc)
         modeseq(e[4], acc)
         return acc
@@ -143,7 +153,10 @@ def body(depth, c):
     # the outer body always contains at least one inner differentiation (so depth >= 2 by construction)
     counter[0] += 1
     y = "y%d" % counter[0]
-    inner = ("D", MODES[c.int(0, len(MODES) - 1)], y, gen(c, ["x", y], depth - 1, counter), gen(c, ["x"], depth - 2, counter))
+    if c.chance(1, 5):
+        inner = ("P", PMODES[c.int(0, len(PMODES) - 1)], y, gen(c, ["x", y], depth - 1, counter), gen(c, ["x"], depth - 1, counter))
+    else:
+        inner = ("D", MODES[c.int(0, len(MODES) - 1)], y, gen(c, ["x", y], depth - 1, counter), gen(c, ["x"], depth - 2, counter))
     rest = gen(c, ["x"], depth - 1, counter)
     top = c.int(0, 3)
     outer_body = [("*", rest, inner), ("+", inner, rest), inner, ("*", ("v", "x"), inner)][top]
